@@ -174,6 +174,26 @@ def special_document(rng, kind):
                 }
             },
         }, "cases"
+    if kind == "nested_combinator_text_locations":
+        # the string type sits one combinator deeper (nullable + allOf, anyOf of allOf): text forms of numbers and
+        # booleans are still valid strings there
+        return {
+            "openapi": "3.0.2",
+            "info": {"title": "t", "version": "1"},
+            "paths": {
+                "/op/{p}": {
+                    "get": {
+                        "parameters": [
+                            {"name": "q1", "in": "query", "required": True, "schema": {"nullable": True, "allOf": [{"type": "string", "maxLength": 6}]}},
+                            {"name": "c1", "in": "cookie", "required": True, "schema": {"anyOf": [{"allOf": [{"type": "string"}, {"minLength": 2}]}, {"type": "integer", "minimum": 100}]}},
+                            {"name": "X-N", "in": "header", "required": True, "schema": {"nullable": True, "oneOf": [{"allOf": [{"type": "string", "minLength": 1, "maxLength": 4}]}]}},
+                            {"name": "p", "in": "path", "required": True, "schema": {"type": "integer", "minimum": -1, "maximum": 5}},
+                        ],
+                        "responses": ok,
+                    }
+                }
+            },
+        }, "cases"
     if kind == "string_cookies_only":
         return {
             "openapi": "3.0.2",
@@ -237,7 +257,8 @@ def special_document(rng, kind):
     raise AssertionError(kind)
 
 
-SPECIALS = ["no_inputs", "empty_body_schema", "string_header_only", "string_path_only", "string_path_plus_int_query", "additional_only_object", "optional_body_only", "string_cookies_only", "string_cookies_plus_int_query", "string_headers_plus_int_query", "typelist_31_strings", "typelist_31_mixed", "nullable_text_locations", "nullable_exclusive_body", "nullable_string_path", "mixed_headers_only", "mixed_cookies_only"]
+TEXT_SPECIALS = {"nested_combinator_text_locations", "nullable_text_locations"}
+SPECIALS = ["nested_combinator_text_locations", "no_inputs", "empty_body_schema", "string_header_only", "string_path_only", "string_path_plus_int_query", "additional_only_object", "optional_body_only", "string_cookies_only", "string_cookies_plus_int_query", "string_headers_plus_int_query", "typelist_31_strings", "typelist_31_mixed", "nullable_text_locations", "nullable_exclusive_body", "nullable_string_path", "mixed_headers_only", "mixed_cookies_only"]
 
 
 def wire_level_validity(doc, version, location, declared_here, value):
@@ -367,7 +388,7 @@ def run_shard(spec, emit):
     n_draws = 15 if tier == "quick" else 40
     deadline = time.monotonic() + (85 if tier == "quick" else 300)
     samples = 0
-    jobs = [("special", k) for k in SPECIALS if rng.random() < (0.6 if tier == "quick" else 1.0)] + [("random", None)] * n_ops
+    jobs = [("special", k) for k in SPECIALS if k in TEXT_SPECIALS or rng.random() < (0.6 if tier == "quick" else 1.0)] + [("random", None)] * n_ops
     for op_idx, (jkind, special) in enumerate(jobs):
         if time.monotonic() > deadline:
             break
@@ -399,7 +420,7 @@ def run_shard(spec, emit):
         seen = []
 
         @hypothesis.seed(rng.randrange(10**9))
-        @settings(max_examples=n_draws, database=None, deadline=None, phases=[Phase.generate], suppress_health_check=list(HealthCheck))
+        @settings(max_examples=n_draws * (4 if special in TEXT_SPECIALS else 1), database=None, deadline=None, phases=[Phase.generate], suppress_health_check=list(HealthCheck))
         @given(case=strategy)
         def test(case):
             seen.append((case, capture.take()))
